@@ -15,7 +15,17 @@ open Parsley Parsley.Obj Parsley.Spelling Parsley.DocSpec Driver Driver.C03
            ones modulo 65536 (5 / 65541, 7 / 196615) or whose generation exceeds 65535 (11 65536 next to 12 0): every
            identifier is its own object - variant%4: 0 the update adds the large ones, 1 both in the base revision and
            the update redefines a small one, 2 generation 65536 in a cross-reference-stream base, 3 large ones in the
-           base and the update adds the small ones -/
+           base and the update adds the small ones
+      ench <hex> <seed> <variant>   histories of 2-4 revisions (thorough, variant >= 1000: up to 6) in which revisions DECLARE
+           ENCRYPTION (`/Encrypt` in a trailer and / or in a cross-reference stream's dictionary; encoder DocSpec.renderHistoryE).
+           variant%8: 0 classic tables only, some trailers declare (must load exactly); 1 the NEWEST section is a classic table
+           that declares, an older one is / has a cross-reference stream (must be refused); 2 a classic table declares, every
+           section below it is classic, above it sections with cross-reference streams and object streams (order rule: loaded,
+           members skipped - known finding encrypt-declared-below-streams); 3 every revision declares where its layout allows (the realistic case); 4 only
+           cross-reference stream dictionaries declare (never consulted: the history loads exactly, which is acceptable); 5 every choice random; 6 the
+           declaring revision is NOT on the /Prev chain (skipped over: loads as a plain history); 7 one hybrid section
+           declares in its trailer / its /XRefStm stream's dictionary / both, anywhere in the history.
+           Oracle: DocSpec.acceptable (refused, or exactly `resolve` of the chain) - Driver/C03.lean judgeEnc. -/
 
 /-- the revisions of a history, all /Prev automatic -/
 def genRevs (seed variant maxRevs : Nat) : List Rev × Bytes × Bool × Rng :=
@@ -95,6 +105,89 @@ def genBig (seed variant : Nat) : Scene :=
   let upd : Rev := { objs := uo, members := [], frees := [], zero := false, root, lay := l1 }
   ⟨garbage, bin == 1, [(base, .auto), (upd, .auto)], some [0, 1]⟩
 
+
+/-! ### histories that declare encryption -/
+
+/-- a base revision and updates with the given layouts (oldest first); stable generations, members left alone -/
+def genRevsK (r : Rng) (kinds : List Nat) : List Rev × GenSt :=
+  let (base, g) := rndBase ⟨r, 1, []⟩ (kinds.headD 0) 65535
+  (kinds.drop 1).foldl (fun (acc : List Rev × GenSt) k =>
+    let (revs, g) := acc
+    let (mv, r) := g.r.nat 3
+    let (ri, r) := r.nat g.known.length
+    let rk := g.known[ri]?.getD default
+    let prevRoot := (revs.getLast?.map (·.root)).getD base.root
+    let root := if mv == 0 && rk.live && !rk.member then (rk.num, rk.gen) else prevRoot
+    let (u, g) := rndUpdate { g with r } k false false root
+    (revs ++ [u], g)) ([base], g)
+
+def rndKinds (r : Rng) (n : Nat) : List Nat × Rng :=
+  (List.range n).foldl (fun (acc : List Nat × Rng) _ => let (k, r) := acc.2.nat 3; (acc.1 ++ [k], r)) ([], r)
+
+def setAt {α : Type} (l : List α) (i : Nat) (x : α) : List α := l.zipIdx.map fun (y, j) => if j == i then x else y
+
+/-- where a revision of layout `k` declares when it declares "as a writer would": trailer for tables, the stream's
+    dictionary for streams, both for hybrids -/
+def naturalPlace (k : Nat) : Bool × Bool := (k != 1, k != 0)
+
+def genEncHist (seed variant maxRevs : Nat) : EncScene :=
+  let r := Rng.mk' (seed * 49979687 + variant * 31 + 3)
+  let fam := variant % 8
+  let (garbage, r) := rndGarbage r
+  let (bin, r) := r.nat 2
+  let (dn, r) := r.nat (maxRevs - 1)
+  let n := if fam == 6 then Nat.max 3 (2 + dn) else 2 + dn
+  let (kinds, r) := rndKinds r n
+  let (sk, r) := r.nat 2          -- a stream layout: 1 or 2
+  let sk := sk + 1
+  let (j, r) := r.nat (n - 1)     -- an index below the newest
+  let (bits, r) := Driver.C02.rndChoices r (3 * n)
+  let bit (i : Nat) : Bool := (bits[i]?.getD 0) % 2 == 1
+  -- (layouts, (declares?, inTrailer, inStream) per revision), oldest first
+  let (kinds, plan) : List Nat × List (Bool × Bool × Bool) :=
+    match fam with
+    | 0 =>
+      let ks := kinds.map fun _ => 0
+      (ks, (List.range n).map fun i => (bit i || i == j, true, bit (n + i)))
+    | 1 =>
+      let ks := setAt (setAt kinds (n - 1) 0) j sk
+      (ks, (List.range n).map fun i => if i == n - 1 then (true, true, false) else (bit i && bit (n + i), bit (2 * n + i), true))
+    | 2 =>
+      let ks := kinds.zipIdx.map fun (k, i) => if i ≤ j then 0 else if i == n - 1 then sk else k
+      (ks, (List.range n).map fun i => if i == j then (true, true, false) else if i < j then (bit i, true, false) else (bit i, false, true))
+    | 3 => (kinds, kinds.map fun k => (true, (naturalPlace k).1, (naturalPlace k).2))
+    | 4 =>
+      let ks := setAt kinds j sk
+      (ks, ks.zipIdx.map fun (k, i) => (k != 0 && (bit i || i == j), false, true))
+    | 5 => (kinds, (List.range n).map fun i => (bit i, bit (n + i), bit (2 * n + i) || !bit (n + i)))
+    | 6 => (kinds, kinds.map fun k => (false, (naturalPlace k).1, (naturalPlace k).2))     -- filled in below
+    | _ =>
+      let ks := setAt kinds j 2
+      let pl := (bits[0]?.getD 0) % 3
+      (ks, (List.range n).map fun i => (i == j, pl != 1, pl != 0))
+  let (revs, g) := genRevsK r kinds
+  let r := g.r
+  let (decls, r) := plan.foldl (fun (acc : List (Option EncDecl) × Rng) p =>
+    let (v, r) := rndEncVal acc.2 g.next
+    (acc.1 ++ [if p.1 then some ⟨v, p.2.1, p.2.2⟩ else none], r)) ([], r)
+  let mk (ds : List (Option EncDecl)) (pms : List PrevMode) : List (Rev × Option EncDecl × PrevMode) :=
+    revs.zipIdx.map fun (x, i) => (x, (ds[i]?).join, pms[i]?.getD .auto)
+  let autos := revs.map fun _ => PrevMode.auto
+  if fam == 6 then
+    -- the newest revision's /Prev skips the revisions t+1 .. n-2; one of those declares
+    let (t, r) := r.nat (n - 2)
+    let (d, r) := r.nat (n - 2 - t)
+    let who := t + 1 + d
+    let (v, _) := rndEncVal r g.next
+    let k := kinds[who]?.getD 0
+    let ds := setAt decls who (some ⟨v, (naturalPlace k).1, (naturalPlace k).2⟩)
+    let first : EncScene := ⟨garbage, bin == 1, mk ds autos, List.range n⟩
+    let (_, xs, _, _) := renderE first
+    ⟨garbage, bin == 1, mk ds (setAt autos (n - 1) (.abs (xs[t]?.getD 0))), List.range (t + 1) ++ [n - 1]⟩
+  else ⟨garbage, bin == 1, mk decls autos, List.range n⟩
+
+def encMaxRevs (variant : Nat) : Nat := if variant ≥ 1000 then 5 else 3
+
 def maxRevsOf (variant : Nat) : Nat := if variant ≥ 1000 then 7 else 3
 
 def judge (case impl : String) : String :=
@@ -116,6 +209,8 @@ def judge (case impl : String) : String :=
         s!"bad {cls} " ++ " ".intercalate ((v.splitOn " ").drop 2)
       else v
     | ["w0", hex, seed, variant] => Driver.C03.judgeW0 seed.toNat! variant.toNat! hex impl   -- one-revision histories, see Driver/C03.lean
+    | ["ench", hex, seed, variant] => judgeEnc (genEncHist seed.toNat! variant.toNat! (encMaxRevs variant.toNat!)) hex impl
+    | ["enc", hex, seed, variant] => judgeEnc (genEncDoc seed.toNat! variant.toNat!) hex impl
     | ["big", hex, seed, variant] =>
       let v := judgeScene (genBig seed.toNat! variant.toNat!) hex impl
       if v.startsWith "bad wrong-load" then "bad wrong-merge " ++ " ".intercalate ((v.splitOn " ").drop 2) else v
@@ -136,6 +231,11 @@ def gen (seed n : Nat) (tier : String) (emit : String → IO Unit) : IO Unit := 
       let bg := genBig s (k / 8)
       let (bb, _, _, _) := render bg
       emit s!"big {hexOfBytes bb} {s} {k / 8}"
+    -- histories that declare encryption: 8 families
+    if k % 4 == 1 then
+      let ev := (k / 4) % 8 + (if tier == "thorough" && k % 3 == 0 then 1000 else 0)
+      let (eb, _, _, _) := renderE (genEncHist s ev (encMaxRevs ev))
+      emit s!"ench {hexOfBytes eb} {s} {ev}"
     -- one-revision histories whose cross-reference stream has no type field (/W [0 n m]), plain and hybrid
     if k % 16 == 5 then
       let (wb, _) := Driver.C03.w0Bytes s (k / 16)
@@ -145,6 +245,9 @@ def nontrivial (line : String) : Bool :=
   match words line with
   | "hist" :: hex :: _ => hex.length ≥ 1000
   | "big" :: _ => true
+  | "ench" :: _ => true
+  | "enc" :: _ => true
+  | "decl" :: _ => true
   | "w0" :: _ => true
   | "exp" :: _ => true
   | "mut" :: hex :: _ => hex.length ≥ 400
